@@ -177,6 +177,29 @@ func runC16(c *Ctx) {
 			c.Check(ok, "R16.2", fs.Name+": creation only without a tag", addCall.Pos(), "state.add is dominated by etag == \"\" after load()", "a token can be created although the caller expected an existing version")
 		}
 		// ---- R16.3 rollback ----
+		// the entry as it was: a local read from state.tokens[key] before the mutation
+		saved := map[types.Object]string{}
+		ast.Inspect(fs.Body(), func(n ast.Node) bool {
+			as, ok := n.(*ast.AssignStmt)
+			if !ok || len(as.Rhs) != 1 || len(as.Lhs) == 0 || len(as.Lhs) > 2 {
+				return true
+			}
+			ix, ok := unparen(as.Rhs[0]).(*ast.IndexExpr)
+			if !ok {
+				return true
+			}
+			if t := ff.term(ix.X); t == nil || t.K != 'f' || t.Obj != types.Object(fTokens) {
+				return true
+			}
+			id, ok := as.Lhs[0].(*ast.Ident)
+			if !ok || id.Name == "_" {
+				return true
+			}
+			if kt := ff.term(ix.Index); kt != nil && ff.DominatedByNode(first, as) {
+				saved[fs.Pkg.TypesInfo.ObjectOf(id)] = kt.String()
+			}
+			return true
+		})
 		var bad []string
 		nerr := 0
 		for _, ex := range ff.Exits() {
@@ -193,7 +216,7 @@ func runC16(c *Ctx) {
 			for _, f := range ex.St.Facts() {
 				if f.Op == "eq" && f.Pos && f.B != nil {
 					for _, pr := range [][2]*Term{{f.A, f.B}, {f.B, f.A}} {
-						if pr[0].K == 'i' && pr[0].Args[0].K == 'f' && pr[0].Args[0].Obj == types.Object(fTokens) && pr[1].K == 'v' && pr[1].Obj.Name() == "old" {
+						if pr[0].K == 'i' && pr[0].Args[0].K == 'f' && pr[0].Args[0].Obj == types.Object(fTokens) && pr[1].K == 'v' && saved[pr[1].Obj] != "" && saved[pr[1].Obj] == pr[0].Args[1].String() {
 							restored = true
 						}
 					}
